@@ -115,12 +115,41 @@ DISTURB = [
     case("live", "tears", "manifest_n.mpd", {"events": "scte35", "scte35__value": "x y"}, defaults="C"),
     case("live", "bbbaref", "hand_made.mpd", {"start": "epoch", "aerr": "404=3", "playready__la_url": "https%3A%2F%2Fd%2F"}),
 ]
+# every option vector a handler or DRM class could use to edit a shared container: each DRM system (and `all`)
+# x each PlayReady version x PIFF x mode x with/without explicit locations (pairwise over mode and PIFF);
+# the first init segment of each is fetched too, so the media handler's DRM code is part of the history
+def _drm_vectors():
+    out = []
+    modes = ["live", "vod", "odvod"]
+    k = 0
+    for system in ("playready", "clearkey", "marlin", "all", "clearkey,playready", "marlin,playready"):
+        for version in ("1.0", "2.0", "3.0", "4.0"):
+            for locs in ("", "-cenc", "-moov-pro"):
+                if locs and "," in system:
+                    drm = ",".join(n + locs for n in system.split(","))
+                else:
+                    drm = system + locs
+                mode = modes[k % 3]
+                if mode == "odvod" and "moov" in locs:
+                    mode = "vod"
+                c = case(mode, "bbb", "hand_made.mpd" if k % 2 == 0 else ("manifest_e.mpd" if mode != "odvod" else "hand_made.mpd"),
+                         {"drm": drm, "playready__version": version, "playready__piff": str(k % 2)})
+                c["fetch_init"] = True
+                out.append(c)
+                k += 1
+    return out
+
+
+DISTURB += _drm_vectors()
+
 PROBES = [
     case("vod", "bbb", "hand_made.mpd", {"drm": "playready"}),
     case("live", "bbb", "hand_made.mpd", {"drm": "all", "start": "today", "depth": "60"}),
     case("vod", "bbb", "manifest_e.mpd", {"drm": "marlin,clearkey"}),
     case("live", "bbb", "hand_made.mpd", {"drm": "playready-cenc-pro", "playready__version": "2.0"}),
     case("odvod", "bbb", "hand_made.mpd", {"drm": "clearkey", "leeway": "0"}),
+    case("vod", "bbb", "hand_made.mpd", {"drm": "playready-moov-pro,clearkey-moov-pro"}),
+    case("live", "bbb", "manifest_e.mpd", {"drm": "all-moov-pro", "start": "epoch"}),
     case("live", "tears", "hand_made.mpd", {}, defaults="B"),
     case("vod", "bbb", "hand_made.mpd", {k: v for k, v in RICH.items() if k != "start"}),
 ]
